@@ -7,7 +7,7 @@ LEVEL_TEXT = ("soundness half proved for the producers under contract: every nod
               "find_atob / find_Base64Decode nodes cover the whole call and their value is a2b_base64 of exactly the quoted argument (regex linear "
               "decomposition); apply_xor_key adds at most one child, spanning the whole value, only for a key in 0..255 (bytes() range obligation), with "
               "parent link and fresh identity; type and label constants of find_base64 are pinned; converse half for bare hexadecimal runs, relative to the regex contract: "
-              "find_hex returns exactly one node per match of HEX_RE (`one-node-per-match`: no match is filtered away - a filter is accepted only when it is proved true of every match), and the language of HEX_RE is pinned to 'ten or more same-case hex pairs' (pin/HEX_RE)")
+              "find_hex returns exactly one node per match of HEX_RE (`one-node-per-match`: no match is filtered away - a filter is accepted only when it is proved true of every match), and the languages of HEX_RE ('ten or more same-case hex pairs'), BASE64_RE, ATOB_RE, BASE64DECODE_RE, FROMB64STRING_RE and FROMHEXSTRING_RE are pinned (pin/<CONSTANT>: equivalence of regular languages with the shape written in the contract)")
 LEVEL_NOTE = ("code and specification apply the same trusted primitive (binascii) - the obligations are about the glue (right group, right span, right filter); "
               "WHICH runs the regex engine matches (leftmost, greedy, the 10-pair minimum) is the engine's business and is covered by the bounded value oracle only; "
               "the completeness half ('is decoded as one unit') of the other producers and find_FromBase64String / find_FromHexString / find_base64's acceptance rules are "
